@@ -39,6 +39,8 @@ TOL = 1e-9
 # absolute floor: round-off of mdot*cp*T (T ~ 600-1000 K carries ~1e-13 K)
 FLOOR = 1e-4
 
+MAX_STEPS = 8000
+
 
 def cases(tier, seed):
     n_single = 96 if tier == 'quick' else 900
@@ -322,7 +324,7 @@ def run_refine(case, res):
     key = {'nr': feats['nr'], 'n_duct': feats['n_duct'],
            'byp': feats.get('byp')}
     with drive.scratch() as d:
-        inp, r0 = drive.build(P, d)
+        inp, r0 = drive.build(P, d, max_steps=MAX_STEPS)
         base = float(r0.req_dz)
     out = []
     for f in (1.0, 0.5, 0.25):
@@ -349,7 +351,7 @@ def run_refine(case, res):
             acc['n'] += 1
 
         with drive.scratch() as d, Hooks() as hk:
-            inp, r = drive.build(P, d)
+            inp, r = drive.build(P, d, max_steps=MAX_STEPS)
             StepMonitor(hk, on_step)
             drive.sweep(r)
             a = r.assemblies[0]
@@ -424,7 +426,7 @@ def run_case(case):
 
     try:
         with drive.scratch() as d, Hooks() as hk:
-            inp, r = drive.build(P, d)
+            inp, r = drive.build(P, d, max_steps=MAX_STEPS)
             if len(r.z) > 6000:
                 res.status('rejected', 'too many steps (%d)' % len(r.z))
                 res.tag('skipped_too_many_steps')
